@@ -321,6 +321,10 @@ func rlaneMain(argv []string) int {
 	invn := loadInventory(*inv)
 	prepareRuntime(invn)
 	noScribble = true
+	// address-space limit (the race runtime maps its shadow on demand, so a limit works): a
+	// corrupted size computed by the code under test must fail fast
+	lim := syscall.Rlimit{Cur: 32 << 30, Max: 32 << 30}
+	syscall.Setrlimit(syscall.RLIMIT_AS, &lim)
 	logPath := filepath.Join(*scratch, fmt.Sprintf("racelog.%d.%d", *wi, os.Getpid()))
 	if err := raceLogInit(logPath); err != nil {
 		fmt.Println("ERROR: race log:", err)
